@@ -759,5 +759,20 @@ int main(int argc, char **argv) {
         { int di = (int) (c / 11 % 4); int sm = (int) r.range(1, 3); int pm = r.coin(2, 3) ? 1 : 0; runLayout(r, parent, di, sm, pm, 2); }
         vh::endCase();
     }
+    // fixed witness (Props/C19Layout.lean `isSymmetrical_flag_unsound`): two non-isomorphic 13-node subtrees
+    // T1 = {x:{p1,q2}, y:{p1,q2}}, T2 = {x:{p1,p1}, y:{q2,q2}} with equal computeIsomString form one class of
+    // even order, so isSymmetrical() is true although the drawing is not mirror symmetric.
+    {
+        static const int quirk[27] = {-1, 0, 1, 2, 3, 2, 5, 5, 1, 8, 9, 8, 11, 11, 0, 14, 15, 16, 15, 18, 14, 20, 21, 21, 20, 24, 24};
+        for (int d = 0; d < 4; ++d, ++k) {
+            if (!a.want(k)) continue;
+            vh::Rng r = vh::caseRng(a.seed, k);
+            std::vector<int> parent(quirk, quirk + 27);
+            vh::beginCase(k, "layoutx-quirk-witness");
+            printf("kind layout\n");
+            runLayout(r, parent, d, 0);
+            vh::endCase();
+        }
+    }
     return 0;
 }
